@@ -355,9 +355,25 @@ Proof.
     apply Forall_app. split; [apply Forall_map_tok; intros c; reflexivity|]. constructor; [reflexivity|constructor].
 Qed.
 
+Lemma ktok_pop a : Forall (fun t => classify t = KTok 0%Z) (pop a).
+Proof.
+  destruct a as [z|c]; cbn [pop]; [apply Forall_map_tok; intros x; reflexivity|].
+  constructor; [reflexivity|]. constructor; [reflexivity|]. apply Forall_app. split; [apply Forall_map_tok; intros x; reflexivity|].
+  constructor; [reflexivity|constructor].
+Qed.
 Lemma walks_test2 t k : f2_test t = true -> walks (print_test t) k (S k).
 Proof.
-  destruct t; try (apply walks_test); try discriminate. intros _. apply walks_if. reflexivity.
+  destruct t as [| |a r b|a| |sw| | |]; try discriminate; intros _.
+  - apply walks_if. reflexivity.
+  - apply walks_if. reflexivity.
+  - cbn [print_test]. change (esc s_ifnum :: ?l) with ([esc s_ifnum] ++ l).
+    eapply walks_app; [apply walks_if; reflexivity|]. apply walks_toks.
+    apply Forall_app. split; [apply ktok_pop|]. constructor; [destruct r; reflexivity|].
+    apply Forall_app. split; [apply ktok_pop|]. constructor; [reflexivity|constructor].
+  - cbn [print_test]. change (esc s_ifodd :: ?l) with ([esc s_ifodd] ++ l).
+    eapply walks_app; [apply walks_if; reflexivity|]. apply walks_toks.
+    apply Forall_app. split; [apply ktok_pop|]. constructor; [reflexivity|constructor].
+  - apply walks_if. reflexivity.
 Qed.
 
 Lemma walks_print :
@@ -398,20 +414,23 @@ Proof.
   - apply Forall_map_tok. intros c. split; reflexivity.
   - constructor; [split; reflexivity|constructor].
 Qed.
-Lemma flat_test t : Forall flat (print_test t).
+Lemma depth_pop a d : depth_after (pop a) d = Some d.
 Proof.
-  destruct t as [| |a r b|a| | | | |]; try (constructor; fail).
-  - constructor; [split; reflexivity|constructor].
-  - constructor; [split; reflexivity|constructor].
-  - destruct a as [a|]; [|constructor]. destruct b as [b|]; [|constructor].
-    cbn [print_test]. constructor; [split; reflexivity|].
-    apply Forall_app. split; [apply Forall_map_tok; intros c; split; reflexivity|].
-    constructor; [destruct r; split; reflexivity|].
-    apply Forall_app. split; [apply Forall_map_tok; intros c; split; reflexivity|].
-    constructor; [split; reflexivity|constructor].
-  - destruct a as [a|]; [|constructor]. cbn [print_test]. constructor; [split; reflexivity|].
-    apply Forall_app. split; [apply Forall_map_tok; intros c; split; reflexivity|]. constructor; [split; reflexivity|constructor].
-  - constructor; [split; reflexivity|constructor].
+  destruct a as [z|c]; cbn [pop].
+  - apply depth_flat. apply Forall_map_tok. intros x. split; reflexivity.
+  - cbn [depth_after]. change (is_bgroup (esc s_value)) with false. change (is_egroup (esc s_value)) with false.
+    change (is_bgroup bg) with true. cbn iota. rewrite depth_after_app, (depth_flat (map letter _)) by (apply Forall_map_tok; intros x; split; reflexivity).
+    reflexivity.
+Qed.
+Lemma depth_test t d : depth_after (print_test t) d = Some d.
+Proof.
+  destruct t as [| |a r b|a| |sw| | |]; try reflexivity.
+  - cbn [print_test depth_after]. change (is_bgroup (esc s_ifnum)) with false. change (is_egroup (esc s_ifnum)) with false. cbn iota.
+    rewrite depth_after_app, depth_pop. cbn [depth_after].
+    replace (is_bgroup (rel_tok r)) with false by (destruct r; reflexivity). replace (is_egroup (rel_tok r)) with false by (destruct r; reflexivity).
+    rewrite depth_after_app, depth_pop. reflexivity.
+  - cbn [print_test depth_after]. change (is_bgroup (esc s_ifodd)) with false. change (is_egroup (esc s_ifodd)) with false. cbn iota.
+    rewrite depth_after_app, depth_pop. reflexivity.
 Qed.
 
 Lemma depth_print :
@@ -429,7 +448,7 @@ Proof.
     change (is_bgroup bg) with true. cbn iota. rewrite depth_after_app, IH. reflexivity.
   - intros nm d. reflexivity.
   - intros t th el Ht _ IHth _ IHel d. rewrite print_cond.
-    rewrite depth_after_app, (depth_flat _ (flat_test t)), depth_after_app, IHth, depth_after_app.
+    rewrite depth_after_app, (depth_test t), depth_after_app, IHth, depth_after_app.
     destruct el as [e|]; [|reflexivity].
     cbn [depth_after]. change (is_bgroup (esc s_else)) with false. change (is_egroup (esc s_else)) with false. cbn iota.
     rewrite (IHel e eq_refl). reflexivity.
@@ -1245,7 +1264,7 @@ Qed.
 (* the token shape shared by all fragments: what the scanners need *)
 Fixpoint w_node (x : node) : bool :=
   match x with
-  | NWord _ | NParam _ | NLet _ _ | NNewSwitch _ | NSetSwitch _ _ => true
+  | NWord _ | NParam _ | NLet _ _ | NNewSwitch _ | NSetSwitch _ _ | NStep _ | NSetC _ _ | NAddC _ _ => true
   | NGroup b => forallb w_node b
   | NDef _ _ _ d b => opt_ok d && forallb w_node b
   | NCall _ o a => opt_ok o && forallb (forallb w_node) a
@@ -1256,12 +1275,12 @@ Fixpoint w_node (x : node) : bool :=
 
 Fixpoint print_ors (l : list (list node)) : list tok :=
   match l with [] => [] | b :: r => esc s_or :: print b ++ print_ors r end.
-Lemma print_case_node z b0 bs el :
-  print_node (NCase (OLit z) (b0 :: bs) el) =
-  esc s_ifcase :: map other (digits (Z.to_N z)) ++ esc s_relax :: print b0 ++ print_ors bs ++ else_part el ++ [esc s_fi].
+Lemma print_case_node a b0 bs el :
+  print_node (NCase a (b0 :: bs) el) =
+  esc s_ifcase :: pop a ++ esc s_relax :: print b0 ++ print_ors bs ++ else_part el ++ [esc s_fi].
 Proof. destruct el; reflexivity. Qed.
-Lemma case_head_inv a bs : case_head a bs = true -> exists z b0 r, a = OLit z /\ bs = b0 :: r /\ (0 <= z)%Z.
-Proof. destruct a as [z|]; [|discriminate]. destruct bs as [|b0 r]; [discriminate|]. cbn. intros H. apply Z.leb_le in H. eauto 6. Qed.
+Lemma case_head_inv a bs : case_head a bs = true -> exists b0 r, bs = b0 :: r /\ opd_ok a = true.
+Proof. destruct bs as [|b0 r]; [discriminate|]. cbn. eauto. Qed.
 
 Fixpoint print_args (l : list (list node)) : list tok :=
   match l with [] => [] | a :: r => bg :: print a ++ eg :: print_args r end.
@@ -1298,6 +1317,32 @@ Lemma walks_param_text i n k : walks (flat_map (fun i => [hash_tok; other (48 + 
 Proof.
   apply walks_toks. revert i. induction n as [|n IH]; intros i; cbn [seq flat_map app]; [constructor|].
   constructor; [reflexivity|]. constructor; [reflexivity|apply IH].
+Qed.
+
+Lemma ktok_cname_arg c : Forall (fun t => classify t = KTok 0%Z) (cname_arg c).
+Proof. unfold cname_arg. constructor; [reflexivity|]. apply Forall_app. split; [apply Forall_map_tok; intros x; reflexivity|constructor; [reflexivity|constructor]]. Qed.
+Lemma ktok_znum z : Forall (fun t => classify t = KTok 0%Z) (znum z).
+Proof. unfold znum. apply Forall_app. split; [destruct (z <? 0)%Z; [constructor; [reflexivity|constructor]|constructor]|apply Forall_map_tok; intros x; reflexivity]. Qed.
+Lemma depth_cname_arg c d : depth_after (cname_arg c) d = Some d.
+Proof.
+  unfold cname_arg. cbn [depth_after]. change (is_bgroup bg) with true. cbn iota.
+  rewrite depth_after_app, (depth_flat (map letter _)) by (apply Forall_map_tok; intros x; split; reflexivity). reflexivity.
+Qed.
+Lemma depth_znum z d : depth_after (znum z) d = Some d.
+Proof.
+  apply depth_flat. unfold znum. apply Forall_app. split; [destruct (z <? 0)%Z; [constructor; [split; reflexivity|constructor]|constructor]|].
+  apply Forall_map_tok. intros x. split; reflexivity.
+Qed.
+Lemma walks_counter_cmd (n : list N) c z k : classify (esc n) = KTok 0%Z -> walks (esc n :: cname_arg c ++ bg :: znum z ++ [eg]) k k.
+Proof.
+  intros Hn. apply walks_toks. constructor; [exact Hn|]. apply Forall_app. split; [apply ktok_cname_arg|].
+  constructor; [reflexivity|]. apply Forall_app. split; [apply ktok_znum|constructor; [reflexivity|constructor]].
+Qed.
+Lemma depth_counter_cmd (n : list N) c z d : depth_after (esc n :: cname_arg c ++ bg :: znum z ++ [eg]) d = Some d.
+Proof.
+  cbn [depth_after]. change (is_bgroup (esc n)) with false. change (is_egroup (esc n)) with false. cbn iota.
+  rewrite depth_after_app, depth_cname_arg. cbn [depth_after]. change (is_bgroup bg) with true. cbn iota.
+  rewrite depth_after_app, depth_znum. reflexivity.
 Qed.
 
 Lemma walks_words x k : forallb is_word x = true -> walks (print x) k k.
@@ -1341,6 +1386,9 @@ Proof.
     + apply walks_tok. destruct b; reflexivity.
     + (* \newif: the scanner takes the following token with it, whatever it is *)
       intros tl cur done els. reflexivity.
+    + apply walks_toks. constructor; [reflexivity|apply ktok_cname_arg].
+    + apply walks_counter_cmd. reflexivity.
+    + apply walks_counter_cmd. reflexivity.
   - intros b IH H k. cbn [w_node] in H. rewrite print_group. change (bg :: ?l) with ([bg] ++ l).
     eapply walks_app; [apply walks_tok; reflexivity|]. eapply walks_app; [|apply walks_tok; reflexivity].
     apply walks_list. now apply (Forall_forallb w_node).
@@ -1376,10 +1424,10 @@ Proof.
     change (esc s_else :: ?l) with ([esc s_else] ++ l). eapply walks_app; [apply walks_else|].
     apply walks_list. apply (Forall_forallb w_node); [now apply IHel|exact He].
   - intros a bs el IHbs IHel H k. cbn [w_node] in H. apply andb_true_iff in H as [H He]. apply andb_true_iff in H as [Hh Hbs].
-    destruct (case_head_inv _ _ Hh) as (z & b0 & r & -> & -> & Hz). rewrite print_case_node.
+    destruct (case_head_inv _ _ Hh) as (b0 & r & -> & Ha). rewrite print_case_node.
     pose proof (Forall2_forallb w_node _ _ IHbs Hbs) as HB. inversion HB as [|x l Hb0 Hr]; subst.
     change (esc s_ifcase :: ?l) with ([esc s_ifcase] ++ l). eapply walks_app; [apply walks_if; reflexivity|].
-    eapply walks_app; [apply walks_toks, Forall_map_tok; intros c; reflexivity|].
+    eapply walks_app; [apply walks_toks, ktok_pop|].
     change (esc s_relax :: ?l) with ([esc s_relax] ++ l). eapply walks_app; [apply walks_tok; reflexivity|].
     eapply walks_app; [now apply walks_list|]. eapply walks_app; [now apply walks_ors|].
     eapply walks_app; [|apply walks_fi].
@@ -1408,6 +1456,10 @@ Proof.
     + reflexivity.
     + reflexivity.
     + reflexivity.
+    + cbn [print_node depth_after]. change (is_bgroup (esc s_stepcounter)) with false. change (is_egroup (esc s_stepcounter)) with false. cbn iota.
+      apply depth_cname_arg.
+    + apply depth_counter_cmd.
+    + apply depth_counter_cmd.
   - intros b IH H d. cbn [w_node] in H. rewrite print_group. cbn [depth_after]. change (is_bgroup bg) with true. cbn iota.
     rewrite depth_after_app, (depth_list b (Forall_forallb w_node _ b IH H)). reflexivity.
   - intros g nm np dd b IH H d. cbn [w_node] in H. apply andb_true_iff in H as [Hd H]. destruct dd as [dd|].
@@ -1437,15 +1489,15 @@ Proof.
     change (is_bgroup eg) with false. change (is_egroup eg) with true. cbn iota. apply IHa.
   - intros t th el IHth IHel H d. cbn [w_node] in H. apply andb_true_iff in H as [H He]. apply andb_true_iff in H as [Ht Hth].
     rewrite print_cond.
-    rewrite depth_after_app, (depth_flat _ (flat_test t)), depth_after_app, (depth_list th (Forall_forallb w_node _ th IHth Hth)), depth_after_app.
+    rewrite depth_after_app, (depth_test t), depth_after_app, (depth_list th (Forall_forallb w_node _ th IHth Hth)), depth_after_app.
     destruct el as [e|]; [|reflexivity].
     cbn [depth_after]. change (is_bgroup (esc s_else)) with false. change (is_egroup (esc s_else)) with false. cbn iota.
     rewrite (depth_list e (Forall_forallb w_node _ e (IHel e eq_refl) He)). reflexivity.
   - intros a bs el IHbs IHel H d. cbn [w_node] in H. apply andb_true_iff in H as [H He]. apply andb_true_iff in H as [Hh Hbs].
-    destruct (case_head_inv _ _ Hh) as (z & b0 & r & -> & -> & Hz). rewrite print_case_node.
+    destruct (case_head_inv _ _ Hh) as (b0 & r & -> & Ha). rewrite print_case_node.
     pose proof (Forall2_forallb w_node _ _ IHbs Hbs) as HB. inversion HB as [|x l Hb0 Hr]; subst.
     cbn [depth_after]. change (is_bgroup (esc s_ifcase)) with false. change (is_egroup (esc s_ifcase)) with false. cbn iota.
-    rewrite depth_after_app, (depth_flat (map other _)) by (apply Forall_map_tok; intros c; split; reflexivity).
+    rewrite depth_after_app, depth_pop.
     cbn [depth_after]. change (is_bgroup (esc s_relax)) with false. change (is_egroup (esc s_relax)) with false. cbn iota.
     rewrite depth_after_app, (depth_list b0 Hb0), depth_after_app.
     assert (Hors : forall d, depth_after (print_ors r) d = Some d).
@@ -1642,19 +1694,33 @@ Proof.
   unfold wprint. constructor; [apply inert_letter|]. apply Forall_app. split; [apply Forall_map_tok, inert_letter|].
   constructor; [apply inert_sp|constructor].
 Qed.
+Lemma inert_pop a : Forall inert (pop a).
+Proof.
+  destruct a as [z|c]; cbn [pop]; [apply Forall_map_tok, inert_other|].
+  constructor; [apply inert_esc; cbv; congruence|]. constructor; [apply inert_bg|].
+  apply Forall_app. split; [apply Forall_map_tok, inert_letter|constructor; [apply inert_eg|constructor]].
+Qed.
+Lemma inert_cname_arg c : Forall inert (cname_arg c).
+Proof. unfold cname_arg. constructor; [apply inert_bg|]. apply Forall_app. split; [apply Forall_map_tok, inert_letter|constructor; [apply inert_eg|constructor]]. Qed.
+Lemma inert_znum z : Forall inert (znum z).
+Proof. unfold znum. apply Forall_app. split; [destruct (z <? 0)%Z; [constructor; [apply inert_other|constructor]|constructor]|apply Forall_map_tok, inert_other]. Qed.
+Lemma inert_counter_cmd n c z : n <> [105; 102; 120] -> Forall inert (esc n :: cname_arg c ++ bg :: znum z ++ [eg]).
+Proof.
+  intros Hn. constructor; [now apply inert_esc|]. apply Forall_app. split; [apply inert_cname_arg|].
+  constructor; [apply inert_bg|]. apply Forall_app. split; [apply inert_znum|constructor; [apply inert_eg|constructor]].
+Qed.
 Lemma inert_test t : Forall inert (print_test t).
 Proof.
   destruct t as [| |a r b|a| | | | |]; try (constructor; fail).
   - constructor; [apply inert_esc; cbv; congruence|constructor].
   - constructor; [apply inert_esc; cbv; congruence|constructor].
-  - destruct a as [a|]; [|constructor]. destruct b as [b|]; [|constructor].
-    cbn [print_test]. constructor; [apply inert_esc; cbv; congruence|].
-    apply Forall_app. split; [apply Forall_map_tok, inert_other|].
+  - cbn [print_test]. constructor; [apply inert_esc; cbv; congruence|].
+    apply Forall_app. split; [apply inert_pop|].
     constructor; [destruct r; apply inert_other|].
-    apply Forall_app. split; [apply Forall_map_tok, inert_other|].
+    apply Forall_app. split; [apply inert_pop|].
     constructor; [apply inert_esc; cbv; congruence|constructor].
-  - destruct a as [a|]; [|constructor]. cbn [print_test]. constructor; [apply inert_esc; cbv; congruence|].
-    apply Forall_app. split; [apply Forall_map_tok, inert_other|]. constructor; [apply inert_esc; cbv; congruence|constructor].
+  - cbn [print_test]. constructor; [apply inert_esc; cbv; congruence|].
+    apply Forall_app. split; [apply inert_pop|]. constructor; [apply inert_esc; cbv; congruence|constructor].
   - constructor; [apply inert_esc; unfold ifname, sname; congruence|constructor].
 Qed.
 
@@ -1723,6 +1789,10 @@ Section Subst.
         unfold setname, sname. destruct b; cbn; congruence.
       + split; [|reflexivity]. cbn [sbn print]. rewrite app_nil_r. apply xp_toks.
         constructor; [apply inert_esc; cbv; congruence|]. constructor; [apply inert_esc; unfold ifname, sname; congruence|constructor].
+      + split; [|reflexivity]. cbn [sbn print]. rewrite app_nil_r. apply xp_toks.
+        constructor; [apply inert_esc; cbv; congruence|apply inert_cname_arg].
+      + split; [|reflexivity]. cbn [sbn print]. rewrite app_nil_r. apply xp_toks, inert_counter_cmd. cbv; congruence.
+      + split; [|reflexivity]. cbn [sbn print]. rewrite app_nil_r. apply xp_toks, inert_counter_cmd. cbv; congruence.
     - intros b IH d H. cbn [fb_node] in H. destruct d as [|d]; [discriminate H|].
       destruct (Q_list b d IH H) as [H1 H2]. split.
       + cbn [sbn print]. rewrite print_group, app_nil_r, print_group.
@@ -1770,7 +1840,7 @@ Section Subst.
         apply xp_app; [exact E1|apply xp_tok, inert_esc; cbv; congruence].
       + cbn [forallb fa_node]. now rewrite Ht, T2, E2.
     - intros a bs el IHbs IHel d H. cbn [fb_node] in H. apply andb_true_iff in H as [Hh H]. destruct d as [|d]; [discriminate H|].
-      apply andb_true_iff in H as [Hbs He]. destruct (case_head_inv _ _ Hh) as (z & b0 & r & -> & -> & Hz).
+      apply andb_true_iff in H as [Hbs He]. destruct (case_head_inv _ _ Hh) as (b0 & r & -> & Ha).
       inversion IHbs as [|x l IHb0 IHr]; subst. cbn [forallb] in Hbs. apply andb_true_iff in Hbs as [Hb0 Hr].
       destruct (Q_list b0 d IHb0 Hb0) as [B1 B2].
       assert (R : xp ps (print_ors r) (print_ors (map (subst (S d) args) r)) /\ forallb (forallb fa_node) (map (subst (S d) args) r) = true).
@@ -1789,11 +1859,11 @@ Section Subst.
       destruct E as [E1 E2]. unfold Q, sbn. cbn [map]. split.
       + cbn [print]. rewrite !print_case_node, app_nil_r.
         change (esc s_ifcase :: ?l) with ([esc s_ifcase] ++ l). apply xp_app; [apply xp_tok, inert_esc; cbv; congruence|].
-        apply xp_app; [apply xp_toks, Forall_map_tok, inert_other|].
+        apply xp_app; [apply xp_toks, inert_pop|].
         change (esc s_relax :: ?l) with ([esc s_relax] ++ l). apply xp_app; [apply xp_tok, inert_esc; cbv; congruence|].
         apply xp_app; [exact B1|]. apply xp_app; [exact R1|].
         apply xp_app; [exact E1|apply xp_tok, inert_esc; cbv; congruence].
-      + cbn [forallb fa_node case_head]. apply Z.leb_le in Hz. now rewrite Hz, B2, R2, E2.
+      + cbn [forallb fa_node case_head]. now rewrite Ha, B2, R2, E2.
   Qed.
 
   Lemma subst_print d b : forallb (fun y => fb_node n y d) b = true ->
@@ -1962,14 +2032,16 @@ Proof.
     rewrite print_cond. destruct t as [| |a r b|a| | | | |]; try discriminate Ht.
     + eexists _, _. split; [reflexivity|split; reflexivity].
     + eexists _, _. split; [reflexivity|split; reflexivity].
-    + destruct a as [a|]; [|discriminate Ht]. destruct b as [b|]; [|discriminate Ht].
-      eexists _, _. split; [reflexivity|split; reflexivity].
-    + destruct a as [a|]; [|discriminate Ht]. eexists _, _. split; [reflexivity|split; reflexivity].
+    + eexists _, _. split; [reflexivity|split; reflexivity].
+    + eexists _, _. split; [reflexivity|split; reflexivity].
     + eexists _, _. split; [reflexivity|split; reflexivity].
   - cbn [w_node] in H. apply andb_true_iff in H as [H _]. apply andb_true_iff in H as [Hh _].
-    destruct (case_head_inv _ _ Hh) as (z & b0 & r & -> & -> & Hz).
+    destruct (case_head_inv _ _ Hh) as (b0 & r & -> & Ha).
     eexists _, _. split; [apply print_case_node|split; reflexivity].
   - eexists _, _. split; [reflexivity|split; destruct b; reflexivity].
+  - eexists _, _. split; [reflexivity|split; reflexivity].
+  - eexists _, _. split; [reflexivity|split; reflexivity].
+  - eexists _, _. split; [reflexivity|split; reflexivity].
   - eexists _, _. split; [reflexivity|split; reflexivity].
 Qed.
 Lemma safe_print ns r : forallb w_node ns = true -> safe_rest r -> safe_rest (print ns ++ r).
@@ -2099,8 +2171,8 @@ Section Unfold3.
   Let e1 := tick e budget.
   Definition case_branch (z : Z) (bs : list (list node)) (el : option (list node)) : list node :=
     if ((0 <=? z) && (z <? Z.of_nat (length bs)))%Z then nth (Z.to_nat z) bs [] else match el with Some x => x | None => [] end.
-  Lemma eval_case z bs el : eval (S f) e out (NCase (OLit z) bs el :: rest) =
-    match eval f e1 out (case_branch z bs el) with Ok e' out' => eval f e' out' rest | other => other end.
+  Lemma eval_case a bs el : eval (S f) e out (NCase a bs el :: rest) =
+    match eval f e1 out (case_branch (opval e1 a) bs el) with Ok e' out' => eval f e' out' rest | other => other end.
   Proof. cbn [eval]. now rewrite Hs. Qed.
   Lemma eval_let nm tg : eval (S f) e out (NLet nm tg :: rest) =
     match lookup_frames tg (frames e1) with
@@ -2128,9 +2200,23 @@ Section Unfold3.
   Proof. cbn [eval]. now rewrite Hs. Qed.
   Lemma gsafe_newsw sw : gsafe (S f) e out (NNewSwitch sw :: rest) = gsafe f (with_switches e1 (new_switch sw (switches e1))) out rest.
   Proof. cbn [gsafe]. now rewrite Hs. Qed.
-  Lemma gsafe_case z bs el : gsafe (S f) e out (NCase (OLit z) bs el :: rest) =
-    gsafe f e1 out (case_branch z bs el) &&
-    match eval f e1 out (case_branch z bs el) with Ok e' out' => gsafe f e' out' rest | _ => true end.
+  Definition with_counters (e0 : env) (cs : list (Z * Z)) : env :=
+    {| frames := frames e0; counters := cs; switches := switches e0; steps := steps e0 |}.
+  Lemma eval_step c : eval (S f) e out (NStep c :: rest) = eval f (with_counters e1 (aset c (cnt e1 c + 1)%Z (counters e1))) out rest.
+  Proof. cbn [eval]. now rewrite Hs. Qed.
+  Lemma gsafe_step c : gsafe (S f) e out (NStep c :: rest) = gsafe f (with_counters e1 (aset c (cnt e1 c + 1)%Z (counters e1))) out rest.
+  Proof. cbn [gsafe]. now rewrite Hs. Qed.
+  Lemma eval_setc c z : eval (S f) e out (NSetC c z :: rest) = eval f (with_counters e1 (aset c z (counters e1))) out rest.
+  Proof. cbn [eval]. now rewrite Hs. Qed.
+  Lemma gsafe_setc c z : gsafe (S f) e out (NSetC c z :: rest) = gsafe f (with_counters e1 (aset c z (counters e1))) out rest.
+  Proof. cbn [gsafe]. now rewrite Hs. Qed.
+  Lemma eval_addc c z : eval (S f) e out (NAddC c z :: rest) = eval f (with_counters e1 (aset c (cnt e1 c + z)%Z (counters e1))) out rest.
+  Proof. cbn [eval]. now rewrite Hs. Qed.
+  Lemma gsafe_addc c z : gsafe (S f) e out (NAddC c z :: rest) = gsafe f (with_counters e1 (aset c (cnt e1 c + z)%Z (counters e1))) out rest.
+  Proof. cbn [gsafe]. now rewrite Hs. Qed.
+  Lemma gsafe_case a bs el : gsafe (S f) e out (NCase a bs el :: rest) =
+    gsafe f e1 out (case_branch (opval e1 a) bs el) &&
+    match eval f e1 out (case_branch (opval e1 a) bs el) with Ok e' out' => gsafe f e' out' rest | _ => true end.
   Proof. cbn [gsafe]. now rewrite Hs. Qed.
 End Unfold3.
 
@@ -2158,11 +2244,11 @@ Qed.
 
 Lemma tprocess_case X b0 r el tl z :
   Forall (fun t => classify t = KTok 0%Z) X -> (forall k, walks (print b0) k k) ->
-  Forall (fun b => forall k, walks (print b) k k) r -> (forall e, el = Some e -> forall k, walks (print e) k k) -> (0 <= z)%Z ->
+  Forall (fun b => forall k, walks (print b) k k) r -> (forall e, el = Some e -> forall k, walks (print e) k k) ->
   tprocess (WCase z) (X ++ print b0 ++ print_ors r ++ else_part el ++ esc s_fi :: tl)
   = Some (((if (z =? 0)%Z then X else []) ++ print (case_branch z (b0 :: r) el)) ++ tl).
 Proof.
-  intros HX Hb0 Hr Hel Hz. unfold tprocess, tscan.
+  intros HX Hb0 Hr Hel. unfold tprocess, tscan.
   assert (Hw : walks (X ++ print b0) O O) by (eapply walks_app; [now apply walks_toks|apply Hb0]).
   rewrite app_assoc, Hw, app_nil_r. change (@nil (list tok)) with (rev (@nil (list tok))).
   rewrite <- app_assoc, (tscan_ors r Hr (X ++ print b0) []).
@@ -2193,28 +2279,7 @@ Proof.
     destruct ((0 <=? z) && (z <? Z.of_nat (S (length r))))%Z; now rewrite <- ?app_assoc.
 Qed.
 
-Lemma exec_case G fs U B z b0 r el tl : Rfg G fs U B -> (0 <= z)%Z ->
-  (forall k, walks (print b0) k k) -> Forall (fun b => forall k, walks (print b) k k) r ->
-  (forall e, el = Some e -> forall k, walks (print e) k k) ->
-  exists Xt Xe, Forall (fun x => is_elem x = true) Xe /\ (forall r', exec (St (Xt ++ r') U B) Xe (St r' U B)) /\
-  exec (St (print_node (NCase (OLit z) (b0 :: r) el) ++ tl) U B) []
-       (St (Xt ++ print (case_branch z (b0 :: r) el) ++ tl) U B).
-Proof.
-  intros HR Hz Hb0 Hr Hel. exists (if (z =? 0)%Z then [esc s_relax] else []), (if (z =? 0)%Z then [prim_elem PRelax] else []).
-  split; [destruct (z =? 0)%Z; [constructor; [reflexivity|constructor]|constructor]|].
-  split; [intros r'; destruct (z =? 0)%Z; [apply (exec_relax G fs), HR|apply ex_refl]|].
-  set (la := length (digits (Z.to_N z))).
-  eapply (ex_cont (S (S la))); [|apply ex_refl].
-  rewrite print_case_node. cbn [app]. rewrite <- app_assoc. cbn [app].
-  rewrite (step_macro _ _ _ s_ifcase (MPrim PIfcase)); [|reflexivity|reflexivity|apply (prim_lookupg G fs); [exact HR|not_mname|reflexivity]].
-  cbn [invoke].
-  rewrite (read_integer_digits la (Z.to_N z) (esc s_relax)); [|apply stopper_relax, (prim_lookupg G fs); [exact HR|not_mname|reflexivity]|subst la; lia].
-  cbn [bind input]. rewrite Z2N.id by exact Hz.
-  repeat (rewrite <- app_assoc; cbn [app]).
-  change (esc s_relax :: print b0 ++ ?l) with ([esc s_relax] ++ print b0 ++ l).
-  rewrite (tprocess_case [esc s_relax] b0 r el tl z); [|constructor; [reflexivity|constructor]|exact Hb0|exact Hr|exact Hel|exact Hz].
-  unfold set_input. cbn [ups bottom]. rewrite <- app_assoc. reflexivity.
-Qed.
+
 
 (* ---- \let\new=\old ---- *)
 Lemma exec_let G fs U B nm tg m r : Rfg G fs U B -> chain_get U B (mname tg) = Some m ->
@@ -2373,17 +2438,336 @@ Proof.
   pose proof (if_invoke_cond [] th el r b U B (Forall_nil _) Hth Hel) as Hi. cbn [app] in Hi. rewrite Hi. reflexivity.
 Qed.
 
+(* ---- counters ---- *)
+Lemma arabic_znum z : arabic z = znum z.
+Proof. reflexivity. Qed.
+
+Lemma cname_inj a b : cname a = cname b -> a = b.
+Proof. unfold cname. intros H. apply zcode_inj. congruence. Qed.
+
+Lemma str_arg_cname c r U B : str_arg (St (cname_arg c ++ r) U B) = Ret (cname c, St r U B).
+Proof.
+  unfold str_arg, ros, cname_arg. cbn [input app read_optional_spaces]. change (is_space bg) with false. cbn iota.
+  unfold set_input. cbn [input ups bottom]. unfold read_token. change (is_bgroup bg) with true. cbn iota.
+  rewrite <- app_assoc. cbn [app].
+  rewrite (read_group_app (map letter (cname c)) O [] (eg :: r) O) by (apply depth_flat, Forall_map_tok; intros x; split; reflexivity).
+  cbn [read_group]. change (is_bgroup eg) with false. change (is_egroup eg) with true. cbn iota. rewrite app_nil_r, rev_involutive.
+  assert (Hall : forall l, forallb (fun t => plainchar t && ((tcat t =? CC_LETTER) || (tcat t =? CC_OTHER) || (tcat t =? CC_SPACE))) (map letter l) = true)
+    by (induction l as [|x l IH]; [reflexivity|]; cbn [map forallb]; now rewrite IH).
+  rewrite Hall. unfold cname. cbn [map strip_sp]. change (is_space (letter 122)) with false. cbn iota.
+  assert (Hrev : forall l, strip_sp (rev (map letter l)) = rev (map letter l)).
+  { intros l. destruct (rev (map letter l)) as [|t l'] eqn:E; [reflexivity|].
+    assert (Hin : In t (map letter l)) by (apply in_rev; rewrite E; now left). apply in_map_iff in Hin as (x & <- & _). reflexivity. }
+  change (letter 122 :: letter 99 :: map letter (zcode c)) with (map letter (122 :: 99 :: zcode c)).
+  rewrite Hrev, rev_involutive. f_equal. f_equal. clear. induction (122 :: 99 :: zcode c) as [|x l IH]; [reflexivity|]. cbn. now rewrite IH.
+Qed.
+
+Lemma next_exp_S f st : next_exp (S f) st =
+  bind (iter_step (next_exp f) f st) (fun r => match r with SYield t st' => Ret (Some t, st') | SCont st' => next_exp f st' | SStop => Ret (None, st) end).
+Proof. reflexivity. Qed.
+Lemma nx_value_step k c rest U B : chain_get U B s_value = Some (MPrim PValue) ->
+  next_exp (S k) (St (esc s_value :: cname_arg c ++ rest) U B) = next_exp k (St (znum (counter_value (St [] U B) (cname c)) ++ rest) U B).
+Proof.
+  intros Hv. rewrite next_exp_S, (step_macro _ _ (esc s_value) s_value (MPrim PValue) _ U B eq_refl eq_refl Hv).
+  cbn [invoke]. rewrite str_arg_cname. cbn [bind]. reflexivity.
+Qed.
+
+Section Numbers2.
+  Context (g0 : nat).
+  Let nx := next_exp (S (S (S g0))).
+
+  Lemma read_signs_digit g neg c r U B : isdig c = true -> read_signs nx (S g) neg (St (other c :: r) U B) = Ret (neg, St (other c :: r) U B).
+  Proof.
+    intros Hc. unfold isdig in Hc. cbn [read_signs]. unfold nx. rewrite (nx_plain _ (other c) r U B eq_refl eq_refl). cbn [bind].
+    change (is_elem (other c)) with false. change (text1 (other c)) with (Some c). cbn iota.
+    replace (c =? 43) with false by lia. replace (c =? 45) with false by lia. change (is_space (other c)) with false. reflexivity.
+  Qed.
+
+  Lemma read_signs_minus g neg r U B : read_signs nx (S g) neg (St (other 45 :: r) U B) = read_signs nx g (negb neg) (St r U B).
+  Proof.
+    cbn [read_signs]. unfold nx. rewrite (nx_plain _ (other 45) r U B eq_refl eq_refl). cbn [bind]. reflexivity.
+  Qed.
+
+  Lemma read_integer_signed (neg : bool) n u tl U B g : stopper U B u -> (S (length (digits n)) < g)%nat ->
+    read_integer nx g (St ((if neg then [other 45] else []) ++ map other (digits n) ++ u :: tl) U B)
+    = Ret ((if neg then - Z.of_N n else Z.of_N n)%Z, St (u :: tl) U B).
+  Proof.
+    intros Hs Hg. pose proof (digits_value_digits n) as Hv. pose proof (digits_isdig n) as Hd.
+    destruct (digits_cons n) as (c & cs & E). rewrite E in *. clear E.
+    inversion Hd as [|c' ds' Hc Hd']; subst. cbn [length] in Hg. destruct g as [|[|g]]; try lia.
+    assert (Hc' := Hc). unfold isdig in Hc'.
+    assert (Hsigns : read_signs nx (S (S g)) false (ros (St ((if neg then [other 45] else []) ++ map other (c :: cs) ++ u :: tl) U B))
+                     = Ret (neg, St (map other (c :: cs) ++ u :: tl) U B)).
+    { destruct neg; cbn [app map].
+      - unfold ros. cbn [input read_optional_spaces]. change (is_space (other 45)) with false. cbn iota.
+        unfold set_input. cbn [input ups bottom]. rewrite read_signs_minus.
+        now rewrite (read_signs_digit g (negb false) c _ U B Hc).
+      - unfold ros. cbn [input read_optional_spaces]. change (is_space (other c)) with false. cbn iota. unfold set_input. cbn [input ups bottom].
+        now rewrite (read_signs_digit (S g) false c _ U B Hc). }
+    unfold read_integer. rewrite Hsigns. cbn [bind map app]. unfold nx at 1. rewrite (nx_plain _ (other c) _ U B eq_refl eq_refl). cbn [bind].
+    change (is_elem (other c)) with false. change (text1 (other c)) with (Some c). cbn iota. rewrite Hc'.
+    rewrite (read_seq_digits u tl U B Hs cs [] (S (S g)) Hd' ltac:(lia)). cbn [bind rev app]. rewrite Hv. reflexivity.
+  Qed.
+
+  Lemma read_integer_znum z u tl U B g : stopper U B u -> (S (length (digits (Z.abs_N z))) < g)%nat ->
+    read_integer nx g (St (znum z ++ u :: tl) U B) = Ret (z, St (u :: tl) U B).
+  Proof.
+    intros Hs Hg. unfold znum. rewrite <- app_assoc. rewrite (read_integer_signed (z <? 0)%Z (Z.abs_N z) u tl U B g Hs Hg).
+    f_equal. f_equal. destruct (Z.ltb_spec z 0); lia.
+  Qed.
+
+  (* \value{zc..} in front of a number reader: expanded by the first look of readOptionalSigns, it leaves the digits of the counter *)
+  Lemma read_integer_value c u tl U B g : chain_get U B s_value = Some (MPrim PValue) ->
+    stopper U B u -> (S (length (digits (Z.abs_N (counter_value (St [] U B) (cname c))))) < g)%nat ->
+    read_integer nx g (St (esc s_value :: cname_arg c ++ u :: tl) U B) = Ret (counter_value (St [] U B) (cname c), St (u :: tl) U B).
+  Proof.
+    intros Hv Hs Hg. set (z := counter_value (St [] U B) (cname c)) in *.
+    rewrite <- (read_integer_znum z u tl U B g Hs Hg).
+    assert (Hz : exists t0 l0, znum z = other t0 :: l0).
+    { unfold znum. destruct (z <? 0)%Z; [eexists _, _; reflexivity|]. destruct (digits_cons (Z.abs_N z)) as (d & ds & ->). eexists _, _; reflexivity. }
+    destruct Hz as (t0 & l0 & Ez).
+    assert (Hnx : nx (St (esc s_value :: cname_arg c ++ u :: tl) U B) = nx (St (znum z ++ u :: tl) U B)).
+    { unfold nx. rewrite (nx_value_step _ c (u :: tl) U B Hv). fold z. rewrite Ez. cbn [app].
+      now rewrite (nx_plain (S g0) (other t0) _ U B eq_refl eq_refl), (nx_plain (S (S g0)) (other t0) _ U B eq_refl eq_refl). }
+    destruct g as [|g]; [lia|].
+    assert (Hr1 : ros (St (esc s_value :: cname_arg c ++ u :: tl) U B) = St (esc s_value :: cname_arg c ++ u :: tl) U B) by reflexivity.
+    assert (Hr2 : ros (St (znum z ++ u :: tl) U B) = St (znum z ++ u :: tl) U B) by (rewrite Ez; reflexivity).
+    unfold read_integer. rewrite Hr1, Hr2.
+    assert (Hsg : forall neg st, read_signs nx (S g) neg st = bind (nx st) (fun r =>
+              match r with
+              | (None, st') => Ret (neg, st')
+              | (Some t, st') =>
+                  if is_elem t then Ret (neg, push_tok t st')
+                  else match text1 t with
+                       | None => Unsupp 2
+                       | Some c =>
+                           if c =? 43 then read_signs nx g neg st'
+                           else if c =? 45 then read_signs nx g (negb neg) st'
+                           else if is_space t then read_signs nx g neg st'
+                           else Ret (neg, push_tok t st')
+                       end
+              end)) by reflexivity.
+    rewrite !Hsg, Hnx. reflexivity.
+  Qed.
+End Numbers2.
+
+(* ---- the heap invariant: switches and counters ---- *)
+Definition cval (B : Engine.frame) (c : Z) : Z := counter_value (St [] [] B) (cname c).
+Definition CtR (cs : list (Z * Z)) (B : Engine.frame) : Prop :=
+  forall c, cval B c = match alookup c cs with Some v => v | None => 0%Z end.
+Definition Heap (e : env) (B : Engine.frame) : Prop := SwR (switches e) B /\ CtR (counters e) B.
+
+Lemma Heap_init : Heap empty_env base_frame.
+Proof. split; [apply SwR_init|intros c; reflexivity]. Qed.
+Lemma CtR_cnt e B c : CtR (counters e) B -> cval B c = cnt e c.
+Proof. intros H. apply H. Qed.
+
+Lemma cval_add_other B k v c : seqb (ckey (cname c)) k = false -> cval ((k, v) :: B) c = cval B c.
+Proof. intros H. unfold cval, counter_value. cbn [bottom findm]. now rewrite H. Qed.
+
+Lemma Heap_add_mname e B nm v : Heap e B -> Heap e ((mname nm, v) :: B).
+Proof. intros [H1 H2]. split; [now apply SwR_add_mname|]. intros c. rewrite cval_add_other by reflexivity. apply H2. Qed.
+
+Lemma SwR_add_ckey sws B c v : SwR sws B -> SwR sws ((ckey (cname c), v) :: B).
+Proof.
+  intros H sw. specialize (H sw). destruct (alookup sw sws) as [b|].
+  - destruct H as (n & H1 & H2 & H3 & H4). exists n. cbn [findm].
+    change (seqb (ifname sw) (ckey (cname c))) with false. replace (seqb (setname sw true) (ckey (cname c))) with false by reflexivity.
+    replace (seqb (setname sw false) (ckey (cname c))) with false by reflexivity.
+    replace (seqb (cellkey n sw) (ckey (cname c))) with false by (unfold cellkey, ckey, ifname; cbn [seqb]; destruct (n =? 0); reflexivity).
+    cbn iota. auto.
+  - cbn [findm]. change (seqb (ifname sw) (ckey (cname c))) with false. exact H.
+Qed.
+
+Lemma Heap_setc e B c z : Heap e B -> Heap (with_counters e (aset c z (counters e))) ((ckey (cname c), MCount z) :: B).
+Proof.
+  intros [H1 H2]. split; [now apply SwR_add_ckey|]. intros c'. cbn [with_counters counters]. rewrite alookup_aset.
+  destruct (Z.eqb_spec c' c) as [->|Hne].
+  - unfold cval, counter_value. cbn [bottom findm]. now rewrite seqb_refl.
+  - rewrite cval_add_other; [apply H2|]. apply seqb_neq. unfold ckey. intros E. apply Hne, cname_inj. congruence.
+Qed.
+
+Lemma Heap_setsw e B sw b0 b n : Heap e B -> alookup sw (switches e) = Some b0 -> findm (ifname sw) B = Some (MIf (cellkey n sw)) ->
+  Heap (with_switches e (aset sw b (switches e))) ((cellkey n sw, MCell b) :: B).
+Proof.
+  intros [H1 H2] Ha Hk. split; [now apply (SwR_set _ _ sw b0)|]. intros c. rewrite cval_add_other; [apply H2|].
+  unfold cellkey, ckey, ifname. cbn [seqb]. destruct (0 =? n); reflexivity.
+Qed.
+
+Lemma Heap_newsw e B sw : Heap e B -> alookup sw (switches e) = None ->
+  let key := cellkey (N.of_nat (length B)) sw in
+  Heap (with_switches e (aset sw false (switches e)))
+       ((key, MCell false) :: (setname sw false, MIfSet key false) :: (setname sw true, MIfSet key true) :: (ifname sw, MIf key) :: B).
+Proof.
+  intros [H1 H2] Ha key. split; [now apply SwR_new|]. intros c.
+  rewrite !cval_add_other; [apply H2|reflexivity|reflexivity|reflexivity|].
+  unfold key, cellkey, ckey, ifname. cbn [seqb]. destruct (0 =? N.of_nat (length B)); reflexivity.
+Qed.
+
+Lemma Rfg_add_swkey G fs U B k v : swkey k = true -> (forall id, k <> mname id) -> Rfg G fs U B -> Rfg G fs U ((k, v) :: B).
+Proof.
+  intros Hsw Hk (mfs & mg & E & HF & [HB1 HB2] & Hok). exists mfs, mg. split; [exact E|]. split; [exact HF|]. split; [|exact Hok]. split.
+  - intros id. cbn [findm]. rewrite (seqb_neq (mname id) k) by (intros E'; now apply (Hk id)). apply HB1.
+  - intros k' Hk' Hsw'. cbn [findm]. destruct (seqb k' k) eqn:Ek; [apply seqb_eq in Ek; subst k'; congruence|now apply HB2].
+Qed.
+
+(* ---- an operand in front of a number reader ---- *)
+Definition opd_len (e : env) (a : operand) : nat :=
+  match a with OLit z => length (digits (Z.to_N z)) | OCnt c => S (length (digits (Z.abs_N (cnt e c)))) end.
+
+Lemma read_integer_opd g0 e a u tl U B g : opd_ok a = true -> CtR (counters e) B ->
+  chain_get U B s_value = Some (MPrim PValue) -> stopper U B u -> (opd_len e a < g)%nat ->
+  read_integer (next_exp (S (S (S g0)))) g (St (pop a ++ u :: tl) U B) = Ret (opval e a, St (u :: tl) U B).
+Proof.
+  intros Ha HC Hv Hs Hg. destruct a as [z|c]; cbn [pop opval opd_len opd_ok] in *.
+  - apply Z.leb_le in Ha. rewrite (read_integer_digits (S g0) (Z.to_N z) u tl U B g Hs Hg). now rewrite Z2N.id.
+  - assert (Hcv : counter_value (St [] U B) (cname c) = cnt e c) by apply (CtR_cnt e B c HC).
+    change (esc s_value :: bg :: map letter (cname c) ++ [eg]) with (esc s_value :: cname_arg c).
+    cbn [app].
+    rewrite (read_integer_value g0 c u tl U B g Hv Hs); [now rewrite Hcv|rewrite Hcv; exact Hg].
+Qed.
+
+Section ExecG2.
+  Context (G : MacroLang.meaning -> Prop).
+
+(* conditionals of F2 other than switches *)
+Lemma exec_cond2 fs U B t th el r e0 : Rfg G fs U B -> CtR (counters e0) B -> f2_test t = true ->
+  match t with TSwitch _ => False | _ => True end ->
+  (forall k, walks (print th) k k) -> (forall e, el = Some e -> forall k, walks (print e) k k) ->
+  exists Xt Xe, Forall (fun x => is_elem x = true) Xe /\ (forall r', exec (St (Xt ++ r') U B) Xe (St r' U B)) /\
+  exec (St (print_test t ++ print th ++ else_part el ++ esc s_fi :: r) U B) []
+       (St ((if eval_test e0 t then Xt ++ print th else print (else_nodes el)) ++ r) U B).
+Proof.
+  intros HR HC Ht Hns Hth Hel.
+  assert (Hrelax : chain_get U B s_relax = Some (MPrim PRelax)) by (apply (prim_lookupg G fs); [exact HR|not_mname|reflexivity]).
+  assert (Hvalue : chain_get U B s_value = Some (MPrim PValue)) by (apply (prim_lookupg G fs); [exact HR|not_mname|reflexivity]).
+  destruct t as [| |a rl b|a| |sw| | |]; try discriminate Ht; try contradiction.
+  - exists [], []. split; [constructor|]. split; [intros r'; apply ex_refl|]. eapply (ex_cont O); [|apply ex_refl].
+    cbn [print_test app]. rewrite (step_macro _ _ _ s_iftrue (MPrim PIftrue)); [|reflexivity|reflexivity|apply (prim_lookupg G fs); [exact HR|not_mname|reflexivity]].
+    cbn [invoke]. pose proof (if_invoke_cond [] th el r true U B (Forall_nil _) Hth Hel) as Hi. cbn [app] in Hi. rewrite Hi. reflexivity.
+  - exists [], []. split; [constructor|]. split; [intros r'; apply ex_refl|]. eapply (ex_cont O); [|apply ex_refl].
+    cbn [print_test app]. rewrite (step_macro _ _ _ s_iffalse (MPrim PIffalse)); [|reflexivity|reflexivity|apply (prim_lookupg G fs); [exact HR|not_mname|reflexivity]].
+    cbn [invoke]. pose proof (if_invoke_cond [] th el r false U B (Forall_nil _) Hth Hel) as Hi. cbn [app] in Hi. rewrite Hi. reflexivity.
+  - cbn [f2_test] in Ht. apply andb_true_iff in Ht as [Ha Hb].
+    exists [esc s_relax], [prim_elem PRelax]. split; [constructor; [reflexivity|constructor]|].
+    split; [intros r'; apply (exec_relax G fs), HR|].
+    set (la := opd_len e0 a). set (lb := opd_len e0 b).
+    eapply (ex_cont (S (S (S (la + lb))))); [|apply ex_refl].
+    cbn [print_test]. cbn [app]. repeat (rewrite <- app_assoc; cbn [app]).
+    rewrite (step_macro _ _ _ s_ifnum (MPrim PIfnum)); [|reflexivity|reflexivity|apply (prim_lookupg G fs); [exact HR|not_mname|reflexivity]].
+    cbn [invoke].
+    assert (Hros1 : forall l, ros (St (pop a ++ l) U B) = St (pop a ++ l) U B).
+    { intros l. destruct a as [z|c]; cbn [pop]; [destruct (digits_cons (Z.to_N z)) as (d & ds & ->)|]; reflexivity. }
+    rewrite Hros1. rewrite (read_integer_opd (la + lb) e0 a (rel_tok rl)); [|exact Ha|exact HC|exact Hvalue|apply stopper_rel|subst la lb; lia].
+    cbn [bind]. replace (ros (St (rel_tok rl :: pop b ++ esc s_relax :: print th ++ else_part el ++ esc s_fi :: r) U B))
+      with (St (rel_tok rl :: pop b ++ esc s_relax :: print th ++ else_part el ++ esc s_fi :: r) U B) by (destruct rl; reflexivity).
+    cbn [input]. replace (is_elem (rel_tok rl)) with false by (destruct rl; reflexivity). unfold set_input. cbn [input ups bottom].
+    rewrite (read_integer_opd (la + lb) e0 b (esc s_relax)); [|exact Hb|exact HC|exact Hvalue|now apply stopper_relax|subst la lb; lia].
+    cbn [bind].
+    assert (Hif : if_invoke (relz rl (opval e0 a) (opval e0 b)) (St (esc s_relax :: print th ++ else_part el ++ esc s_fi :: r) U B)
+                  = Ret (St ((if relz rl (opval e0 a) (opval e0 b) then [esc s_relax] ++ print th else print (else_nodes el)) ++ r) U B)).
+    { change (esc s_relax :: print th ++ else_part el ++ esc s_fi :: r) with ([esc s_relax] ++ print th ++ else_part el ++ esc s_fi :: r).
+      apply if_invoke_cond; [constructor; [reflexivity|constructor]|exact Hth|exact Hel]. }
+    cbn [eval_test]. destruct rl; cbn [rel_tok ttext other seqb N.eqb Pos.eqb andb relz] in *; try (rewrite Hif; reflexivity).
+    rewrite Z.gtb_ltb in Hif. rewrite Hif, Z.gtb_ltb. reflexivity.
+  - cbn [f2_test] in Ht.
+    exists [esc s_relax], [prim_elem PRelax]. split; [constructor; [reflexivity|constructor]|].
+    split; [intros r'; apply (exec_relax G fs), HR|].
+    set (la := opd_len e0 a).
+    eapply (ex_cont (S (S (S la)))); [|apply ex_refl].
+    cbn [print_test]. cbn [app]. repeat (rewrite <- app_assoc; cbn [app]).
+    rewrite (step_macro _ _ _ s_ifodd (MPrim PIfodd)); [|reflexivity|reflexivity|apply (prim_lookupg G fs); [exact HR|not_mname|reflexivity]].
+    cbn [invoke].
+    rewrite (read_integer_opd la e0 a (esc s_relax)); [|exact Ht|exact HC|exact Hvalue|now apply stopper_relax|subst la; lia].
+    cbn [bind eval_test].
+    change (esc s_relax :: print th ++ else_part el ++ esc s_fi :: r) with ([esc s_relax] ++ print th ++ else_part el ++ esc s_fi :: r).
+    rewrite (if_invoke_cond [esc s_relax] th el r (Z.odd (opval e0 a)) U B); [|constructor; [reflexivity|constructor]|exact Hth|exact Hel].
+    reflexivity.
+Qed.
+
+Lemma exec_case fs U B a b0 r el tl e0 : Rfg G fs U B -> CtR (counters e0) B -> opd_ok a = true ->
+  (forall k, walks (print b0) k k) -> Forall (fun b => forall k, walks (print b) k k) r ->
+  (forall e, el = Some e -> forall k, walks (print e) k k) ->
+  exists Xt Xe, Forall (fun x => is_elem x = true) Xe /\ (forall r', exec (St (Xt ++ r') U B) Xe (St r' U B)) /\
+  exec (St (print_node (NCase a (b0 :: r) el) ++ tl) U B) []
+       (St (Xt ++ print (case_branch (opval e0 a) (b0 :: r) el) ++ tl) U B).
+Proof.
+  intros HR HC Ha Hb0 Hr Hel. set (z := opval e0 a).
+  exists (if (z =? 0)%Z then [esc s_relax] else []), (if (z =? 0)%Z then [prim_elem PRelax] else []).
+  split; [destruct (z =? 0)%Z; [constructor; [reflexivity|constructor]|constructor]|].
+  split; [intros r'; destruct (z =? 0)%Z; [apply (exec_relax G fs), HR|apply ex_refl]|].
+  set (la := opd_len e0 a).
+  eapply (ex_cont (S (S (S la)))); [|apply ex_refl].
+  rewrite print_case_node. cbn [app]. rewrite <- app_assoc. cbn [app].
+  rewrite (step_macro _ _ _ s_ifcase (MPrim PIfcase)); [|reflexivity|reflexivity|apply (prim_lookupg G fs); [exact HR|not_mname|reflexivity]].
+  cbn [invoke].
+  rewrite (read_integer_opd la e0 a (esc s_relax)); [|exact Ha|exact HC|apply (prim_lookupg G fs); [exact HR|not_mname|reflexivity]
+                                                      |apply stopper_relax, (prim_lookupg G fs); [exact HR|not_mname|reflexivity]|subst la; lia].
+  cbn [bind input]. fold z.
+  repeat (rewrite <- app_assoc; cbn [app]).
+  change (esc s_relax :: print b0 ++ ?l) with ([esc s_relax] ++ print b0 ++ l).
+  rewrite (tprocess_case [esc s_relax] b0 r el tl z); [|constructor; [reflexivity|constructor]|exact Hb0|exact Hr|exact Hel].
+  unfold set_input. cbn [ups bottom]. rewrite <- app_assoc. reflexivity.
+Qed.
+
+(* \stepcounter{c}  \setcounter{c}{n}  \addtocounter{c}{n} *)
+Lemma int_arg_znum g0 z r U B g : chain_get U B s_relax = Some (MPrim PRelax) -> (S (length (digits (Z.abs_N z))) < g)%nat ->
+  int_arg (next_exp (S (S (S g0)))) g (St (bg :: znum z ++ eg :: r) U B) = Ret (z, St r U B).
+Proof.
+  intros Hrelax Hg. unfold int_arg, ros. cbn [input read_optional_spaces]. change (is_space bg) with false. cbn iota.
+  unfold set_input. cbn [input ups bottom]. unfold read_token. change (is_bgroup bg) with true. cbn iota.
+  rewrite (read_group_app (znum z) O [] (eg :: r) O (depth_znum z O)). cbn [read_group].
+  change (is_bgroup eg) with false. change (is_egroup eg) with true. cbn iota. rewrite app_nil_r, rev_involutive.
+  assert (Hpl : forallb plainchar (znum z) = true).
+  { unfold znum. rewrite forallb_app. apply andb_true_iff. split; [destruct (z <? 0)%Z; reflexivity|].
+    clear. generalize (digits (Z.abs_N z)). intros l. induction l as [|c l IH]; [reflexivity|]. cbn [map forallb]. now rewrite IH. }
+  rewrite Hpl. unfold set_input. cbn [input ups bottom]. change (Tok CC_ESCAPE s_relax) with (esc s_relax).
+  rewrite (read_integer_znum g0 z (esc s_relax) r U B g (stopper_relax U B Hrelax) Hg). cbn [bind input ups bottom].
+  now rewrite drop_relax_tok.
+Qed.
+
+Lemma exec_step fs U B c r : Rfg G fs U B ->
+  exec (St (esc s_stepcounter :: cname_arg c ++ r) U B) [prim_elem PStepcounter]
+       (St r U ((ckey (cname c), MCount (cval B c + 1)) :: B)).
+Proof.
+  intros HR. eapply (ex_cont O).
+  2: { eapply (ex_yield O); [apply step_elem; reflexivity|apply ex_refl]. }
+  rewrite (step_macro _ _ _ s_stepcounter (MPrim PStepcounter)); [|reflexivity|reflexivity|apply (prim_lookupg G fs); [exact HR|not_mname|reflexivity]].
+  cbn [invoke]. rewrite str_arg_cname. reflexivity.
+Qed.
+Lemma exec_setc fs U B c z r : Rfg G fs U B ->
+  exec (St (esc s_setcounter :: cname_arg c ++ bg :: znum z ++ eg :: r) U B) [prim_elem PSetcounter]
+       (St r U ((ckey (cname c), MCount z) :: B)).
+Proof.
+  intros HR. set (lz := length (digits (Z.abs_N z))). eapply (ex_cont (S (S (S (S lz))))).
+  2: { eapply (ex_yield O); [apply step_elem; reflexivity|apply ex_refl]. }
+  rewrite (step_macro _ _ _ s_setcounter (MPrim PSetcounter)); [|reflexivity|reflexivity|apply (prim_lookupg G fs); [exact HR|not_mname|reflexivity]].
+  cbn [invoke]. rewrite str_arg_cname. cbn [bind].
+  rewrite (int_arg_znum (S lz) z r U B); [reflexivity|apply (prim_lookupg G fs); [exact HR|not_mname|reflexivity]|subst lz; lia].
+Qed.
+Lemma exec_addc fs U B c z r : Rfg G fs U B ->
+  exec (St (esc s_addtocounter :: cname_arg c ++ bg :: znum z ++ eg :: r) U B) [prim_elem PAddtocounter]
+       (St r U ((ckey (cname c), MCount (cval B c + z)) :: B)).
+Proof.
+  intros HR. set (lz := length (digits (Z.abs_N z))). eapply (ex_cont (S (S (S (S lz))))).
+  2: { eapply (ex_yield O); [apply step_elem; reflexivity|apply ex_refl]. }
+  rewrite (step_macro _ _ _ s_addtocounter (MPrim PAddtocounter)); [|reflexivity|reflexivity|apply (prim_lookupg G fs); [exact HR|not_mname|reflexivity]].
+  cbn [invoke]. rewrite str_arg_cname. cbn [bind].
+  rewrite (int_arg_znum (S lz) z r U B); [reflexivity|apply (prim_lookupg G fs); [exact HR|not_mname|reflexivity]|subst lz; lia].
+Qed.
+End ExecG2.
+
 (* ---- the simulation on F2 ---- *)
 Lemma sim2 f : forall e out ns e' out',
   forallb f2_node ns = true -> eval f e out ns = Ok e' out' -> gsafe f e out ns = true ->
-  forall U B rest, Rfg good2 (frames e) U B -> SwR (switches e) B -> safe_rest rest ->
+  forall U B rest, Rfg good2 (frames e) U B -> Heap e B -> safe_rest rest ->
   exists T U' B',
-    exec (St (print ns ++ rest) U B) T (St rest U' B') /\ Rfg good2 (frames e') U' B' /\ SwR (switches e') B' /\ length U' = length U /\
+    exec (St (print ns ++ rest) U B) T (St rest U' B') /\ Rfg good2 (frames e') U' B' /\ Heap e' B' /\ length U' = length U /\
     words_text (rev out') = words_text (rev out) ++ text_of T.
 Proof.
   induction f as [|f IH]; intros e out ns e' out' HF Hev Hgs U B rest HR HS Hsafe; [discriminate Hev|].
   destruct ns as [|n ns].
-  { rewrite eval_nil in Hev. injection Hev as <- <-. exists [], U, B. repeat split; [apply ex_refl|exact HR|exact HS|now rewrite app_nil_r]. }
+  { rewrite eval_nil in Hev. injection Hev as <- <-. exists [], U, B. repeat split; [apply ex_refl|exact HR|exact (proj1 HS)|exact (proj2 HS)|now rewrite app_nil_r]. }
   cbn [forallb] in HF. apply andb_true_iff in HF as [Hn Hns].
   destruct (eval_budget f e out n ns _ Hev) as [Hno|(budget & Hs)]; [exfalso; now apply (Hno e' out')|].
   assert (HR1 : Rfg good2 (frames (tick e budget)) U B) by exact HR.
@@ -2392,7 +2776,7 @@ Proof.
   - (* word *)
     rewrite (eval_word f e out ns budget Hs) in Hev. rewrite (gsafe_word f e out ns budget Hs) in Hgs.
     destruct (IH _ _ _ _ _ Hns Hev Hgs U B rest HR1 HS Hsafe) as (T & U' & B' & Hex & HR' & HS' & Hlen & Htxt).
-    exists (wprint w ++ T), U', B'. repeat split; [|exact HR'|exact HS'|exact Hlen|].
+    exists (wprint w ++ T), U', B'. repeat split; [|exact HR'|exact (proj1 HS')|exact (proj2 HS')|exact Hlen|].
     + eapply exec_trans; [apply exec_plain, plain_wprint|exact Hex].
     + rewrite Htxt, words_text_snoc, text_of_app, (text_of_plain _ (plain_wprint w)). now rewrite app_assoc.
   - (* group *)
@@ -2406,7 +2790,7 @@ Proof.
     destruct U1 as [|u1 U1]; [discriminate Hlen1|].
     assert (HR2 : Rfg good2 (frames (with_frames e2 (tl (frames e2)))) U1 B1) by (apply (Rfg_pop good2 _ u1); exact HR1').
     destruct (IH _ _ _ _ _ Hns Hev Hg2 U1 B1 rest HR2 HS1 Hsafe) as (T2 & U2 & B2 & Hex2 & HR2' & HS2 & Hlen2 & Htxt2).
-    exists ([prim_elem PBgroup] ++ T1 ++ [prim_elem PEgroup] ++ T2), U2, B2. repeat split; [|exact HR2'|exact HS2|cbn in Hlen1; lia|].
+    exists ([prim_elem PBgroup] ++ T1 ++ [prim_elem PEgroup] ++ T2), U2, B2. repeat split; [|exact HR2'|exact (proj1 HS2)|exact (proj2 HS2)|cbn in Hlen1; lia|].
     + eapply exec_trans; [apply (exec_bgroup good2 _ _ _ _ HR1)|].
       eapply exec_trans; [exact Hex1|].
       eapply exec_trans; [apply (exec_egroup good2 _ _ _ _ _ HR1')|exact Hex2].
@@ -2429,8 +2813,8 @@ Proof.
                     (depth_Wl _ (good2_body_W m Hm) O) Hnoprim) as Hex0.
       change (MNew (S nparams) (Some (print dd)) (print body)) with (mean_of m) in Hex0.
       pose proof (Rfg_def_global good2 _ U B name m Hm Hun HR1) as HR0.
-      destruct (IH _ _ _ _ _ Hns Hev Hg2 U _ rest HR0 (SwR_add_mname _ _ name (mean_of m) HS) Hsafe) as (T & U' & B' & Hex & HR' & HS' & Hlen & Htxt).
-      exists ([prim_elem (PNewcommand false)] ++ T), U', B'. repeat split; [|exact HR'|exact HS'|exact Hlen|].
+      destruct (IH _ _ _ _ _ Hns Hev Hg2 U _ rest HR0 (Heap_add_mname _ _ name (mean_of m) HS) Hsafe) as (T & U' & B' & Hex & HR' & HS' & Hlen & Htxt).
+      exists ([prim_elem (PNewcommand false)] ++ T), U', B'. repeat split; [|exact HR'|exact (proj1 HS')|exact (proj2 HS')|exact Hlen|].
       + eapply exec_trans; [exact Hex0|exact Hex].
       + rewrite Htxt, text_of_app. reflexivity. }
     apply andb_true_iff in Hn as [Hnp Hbody]. apply Nat.leb_le in Hnp.
@@ -2443,17 +2827,17 @@ Proof.
     change (MDef (param_text nparams) (print body)) with (mean_of m) in Hex0.
     set (st := (if global then add_global else add_local) (mname name) (mean_of m) (St (print ns ++ rest) U B)) in *.
     assert (Hst : exists U0 B0, st = St (print ns ++ rest) U0 B0 /\ length U0 = length U /\
-                   Rfg good2 ((if global then def_global else def_local) name m (frames (tick e budget))) U0 B0 /\ SwR (switches e) B0).
+                   Rfg good2 ((if global then def_global else def_local) name m (frames (tick e budget))) U0 B0 /\ Heap e B0).
     { subst st. destruct global.
       - exists U, ((mname name, mean_of m) :: B). split; [reflexivity|]. split; [reflexivity|].
-        split; [now apply Rfg_def_global|now apply SwR_add_mname].
+        split; [now apply Rfg_def_global|now apply Heap_add_mname].
       - pose proof (Rfg_def_local good2 _ U B name m Hm HR1) as Hl. cbv zeta in Hl.
         unfold add_local in *. cbn [ups] in *. destruct U as [|u U]; cbn [ups bottom set_ups set_bottom add_global input] in *.
-        + eexists [], _. split; [reflexivity|]. split; [reflexivity|]. split; [exact Hl|now apply SwR_add_mname].
+        + eexists [], _. split; [reflexivity|]. split; [reflexivity|]. split; [exact Hl|now apply Heap_add_mname].
         + eexists (_ :: U), B. split; [reflexivity|]. split; [reflexivity|]. split; [exact Hl|exact HS]. }
     destruct Hst as (U0 & B0 & Est & Hlen0 & HR0 & HS0). rewrite Est in Hex0.
     destruct (IH _ _ _ _ _ Hns Hev Hg2 U0 B0 rest HR0 HS0 Hsafe) as (T & U' & B' & Hex & HR' & HS' & Hlen & Htxt).
-    exists ([prim_elem (PDef global)] ++ T), U', B'. repeat split; [|exact HR'|exact HS'|lia|].
+    exists ([prim_elem (PDef global)] ++ T), U', B'. repeat split; [|exact HR'|exact (proj1 HS')|exact (proj2 HS')|lia|].
     + eapply exec_trans; [exact Hex0|exact Hex].
     + rewrite Htxt, text_of_app. replace (text_of [prim_elem (PDef global)]) with (@nil tok) by (destruct global; reflexivity). reflexivity.
   - (* let *)
@@ -2467,12 +2851,12 @@ Proof.
     set (st := add_local (mname name) (mean_of m) (St (print ns ++ rest) U B)) in *.
     assert (Hst : st = St (print ns ++ rest) (ups (add_local (mname name) (mean_of m) (St [] U B))) (bottom (add_local (mname name) (mean_of m) (St [] U B)))
                   /\ length (ups (add_local (mname name) (mean_of m) (St [] U B))) = length U
-                  /\ SwR (switches e) (bottom (add_local (mname name) (mean_of m) (St [] U B)))).
+                  /\ Heap e (bottom (add_local (mname name) (mean_of m) (St [] U B)))).
     { subst st. unfold add_local, add_global, set_ups, set_bottom. cbn [ups bottom input].
-      destruct U; (split; [reflexivity|split; [reflexivity|]]); [now apply SwR_add_mname|exact HS]. }
+      destruct U; (split; [reflexivity|split; [reflexivity|]]); [now apply Heap_add_mname|exact HS]. }
     destruct Hst as (Est & Hlen0 & HS0). rewrite Est in Hex0.
     destruct (IH _ _ _ _ _ Hns Hev Hgs _ _ rest HR0 HS0 Hsafe) as (T & U' & B' & Hex & HR' & HS' & Hlen & Htxt).
-    exists ([prim_elem PLet] ++ T), U', B'. repeat split; [|exact HR'|exact HS'|lia|].
+    exists ([prim_elem PLet] ++ T), U', B'. repeat split; [|exact HR'|exact (proj1 HS')|exact (proj2 HS')|lia|].
     + eapply exec_trans; [exact Hex0|exact Hex].
     + rewrite Htxt, text_of_app. reflexivity.
   - (* call *)
@@ -2492,7 +2876,7 @@ Proof.
     destruct (exec_call2 U B name m opt args (print ns ++ rest) Hm Hlk Ho Ha Elen Hom Hsafe') as [Hex0 HA].
     destruct (IH _ _ _ _ _ (fa_f2l _ HA) Eb Hg1 U B (print ns ++ rest) HR1 HS Hsafe') as (T1 & U1 & B1 & Hex1 & HR1' & HS1 & Hlen1 & Htxt1).
     destruct (IH _ _ _ _ _ Hns Hev Hg2 U1 B1 rest HR1' HS1 Hsafe) as (T2 & U2 & B2 & Hex2 & HR2' & HS2 & Hlen2 & Htxt2).
-    exists (T1 ++ T2), U2, B2. repeat split; [|exact HR2'|exact HS2|lia|].
+    exists (T1 ++ T2), U2, B2. repeat split; [|exact HR2'|exact (proj1 HS2)|exact (proj2 HS2)|lia|].
     + eapply (exec_trans _ []); [exact Hex0|]. eapply exec_trans; [exact Hex1|exact Hex2].
     + rewrite Htxt2, Htxt1, text_of_app. now rewrite app_assoc.
   - (* conditional *)
@@ -2507,11 +2891,11 @@ Proof.
               exec (St (print_test t ++ print thn ++ else_part els ++ esc s_fi :: print ns ++ rest) U B) []
                    (St ((if eval_test (tick e budget) t then Xt ++ print thn else print (else_nodes els)) ++ print ns ++ rest) U B)).
     { destruct t as [| |a0 r0 b0|a0| |sw| | |] eqn:Et; try discriminate Ht;
-        try (apply (exec_cond good2 _ U B _ thn els (print ns ++ rest) HR1 Ht (walks_Wl _ (f2_Wl _ Hth))
-                      (fun e0 He0 => walks_Wl _ (f2_Wl _ (Hel' e0 He0))) (tick e budget) eq_refl)).
+        try (apply (exec_cond2 good2 _ U B _ thn els (print ns ++ rest) (tick e budget) HR1 (proj2 HS) Ht I (walks_Wl _ (f2_Wl _ Hth))
+                      (fun e0 He0 => walks_Wl _ (f2_Wl _ (Hel' e0 He0))))).
       (* a switch: declared (gdef_safe), so its three macros and its cell are in the bottom frame *)
       exists [], []. split; [constructor|]. split; [intros r'; apply ex_refl|].
-      pose proof (HS sw) as Hsw. cbn [eval_test]. change (switches (tick e budget)) with (switches e) in *.
+      pose proof (proj1 HS sw) as Hsw. cbn [eval_test]. change (switches (tick e budget)) with (switches e) in *.
       destruct (alookup sw (switches e)) as [bsw|]; [|discriminate Hdecl]. destruct Hsw as (n & H1 & _ & _ & H4).
       cbn [print_test app]. exact (exec_switch good2 _ U B sw bsw n thn els (print ns ++ rest) HR1 H1 H4 (walks_Wl _ (f2_Wl _ Hth))
                                       (fun e0 He0 => walks_Wl _ (f2_Wl _ (Hel' e0 He0)))). }
@@ -2519,7 +2903,7 @@ Proof.
     assert (Hbr : forallb f2_node br = true) by (subst br; destruct (eval_test (tick e budget) t); [exact Hth|destruct els as [x|]; [now apply Hel'|reflexivity]]).
     destruct (IH _ _ _ _ _ Hbr Eb Hg1 U B (print ns ++ rest) HR1 HS (safe_print _ _ (f2_Wl _ Hns) Hsafe)) as (T1 & U1 & B1 & Hex1 & HR1' & HS1 & Hlen1 & Htxt1).
     destruct (IH _ _ _ _ _ Hns Hev Hg2 U1 B1 rest HR1' HS1 Hsafe) as (T2 & U2 & B2 & Hex2 & HR2' & HS2 & Hlen2 & Htxt2).
-    exists ((if eval_test (tick e budget) t then X else []) ++ T1 ++ T2), U2, B2. repeat split; [|exact HR2'|exact HS2|lia|].
+    exists ((if eval_test (tick e budget) t then X else []) ++ T1 ++ T2), U2, B2. repeat split; [|exact HR2'|exact (proj1 HS2)|exact (proj2 HS2)|lia|].
     + eapply (exec_trans _ []); [exact Hex0|]. subst br. destruct (eval_test (tick e budget) t).
       * rewrite <- app_assoc. eapply exec_trans; [apply HXe|eapply exec_trans; [exact Hex1|exact Hex2]].
       * cbn [app]. replace (print (else_nodes els)) with (print match els with Some x => x | None => [] end) by (destruct els; reflexivity).
@@ -2530,14 +2914,15 @@ Proof.
       cbn [app]. now rewrite app_assoc.
   - (* \ifcase *)
     cbn [f2_node] in Hn. apply andb_true_iff in Hn as [Hn Hel]. apply andb_true_iff in Hn as [Hh Hbs].
-    destruct (case_head_inv _ _ Hh) as (z & b0 & r & -> & -> & Hz).
+    destruct (case_head_inv _ _ Hh) as (b0 & r & -> & Ha).
     rewrite (eval_case f e out ns budget Hs) in Hev. rewrite (gsafe_case f e out ns budget Hs) in Hgs.
     apply andb_true_iff in Hgs as [Hg1 Hg2].
+    set (z := opval (tick e budget) a) in *.
     set (br := case_branch z (b0 :: r) els) in *.
     destruct (eval f (tick e budget) out br) as [e2 out2| |] eqn:Eb; try discriminate Hev.
     pose proof (forallb2_Forall _ _ Hbs) as HbsF. inversion HbsF as [|x l Hb0 Hr]; subst.
     assert (Hel' : forall e0, els = Some e0 -> forallb f2_node e0 = true) by (intros e0 ->; exact Hel).
-    destruct (exec_case good2 _ U B z b0 r els (print ns ++ rest) HR1 Hz (walks_Wl _ (f2_Wl _ Hb0))
+    destruct (exec_case good2 _ U B a b0 r els (print ns ++ rest) (tick e budget) HR1 (proj2 HS) Ha (walks_Wl _ (f2_Wl _ Hb0))
                (Forall_impl _ (fun b Hb => walks_Wl b (f2_Wl b Hb)) Hr)
                (fun e0 He0 => walks_Wl _ (f2_Wl _ (Hel' e0 He0)))) as (Xt & X & HX & HXe & Hex0).
     assert (Hbr : forallb f2_node br = true).
@@ -2546,34 +2931,31 @@ Proof.
       - destruct els as [x|]; [now apply Hel'|reflexivity]. }
     destruct (IH _ _ _ _ _ Hbr Eb Hg1 U B (print ns ++ rest) HR1 HS (safe_print _ _ (f2_Wl _ Hns) Hsafe)) as (T1 & U1 & B1 & Hex1 & HR1' & HS1 & Hlen1 & Htxt1).
     destruct (IH _ _ _ _ _ Hns Hev Hg2 U1 B1 rest HR1' HS1 Hsafe) as (T2 & U2 & B2 & Hex2 & HR2' & HS2 & Hlen2 & Htxt2).
-    exists (X ++ T1 ++ T2), U2, B2. repeat split; [|exact HR2'|exact HS2|lia|].
+    exists (X ++ T1 ++ T2), U2, B2. repeat split; [|exact HR2'|exact (proj1 HS2)|exact (proj2 HS2)|lia|].
     + eapply (exec_trans _ []); [exact Hex0|]. eapply exec_trans; [apply HXe|eapply exec_trans; [exact Hex1|exact Hex2]].
     + rewrite Htxt2, Htxt1, !text_of_app, (text_of_elems X HX). cbn [app]. now rewrite app_assoc.
   - (* \zs..true / \zs..false *)
     rewrite (eval_setsw f e out ns budget Hs) in Hev. rewrite (gsafe_setsw f e out ns budget Hs) in Hgs.
     apply andb_true_iff in Hgs as [Hdecl Hg2]. change (switches (tick e budget)) with (switches e) in *.
-    pose proof (HS name) as Hsw. destruct (alookup name (switches e)) as [b0|] eqn:Eal; [|discriminate Hdecl].
+    pose proof (proj1 HS name) as Hsw. destruct (alookup name (switches e)) as [b0|] eqn:Eal; [|discriminate Hdecl].
     destruct Hsw as (n & H1 & H2 & H3 & H4).
     assert (Hset : findm (setname name b) B = Some (MIfSet (cellkey n name) b)) by (destruct b; assumption).
     pose proof (exec_setsw good2 _ U B name b n (print ns ++ rest) HR1 Hset) as Hex0.
-    assert (HR0 : Rfg good2 (frames (with_switches (tick e budget) (aset name b (switches e)))) U ((cellkey n name, MCell b) :: B)).
-    { destruct HR1 as (mfs & mg & E & HF & [HB1 HB2] & Hok). exists mfs, mg. split; [exact E|]. split; [exact HF|]. split; [|exact Hok].
-      split.
-      - intros id. cbn [findm]. change (seqb (mname id) (cellkey n name)) with false. apply HB1.
-      - intros k Hk Hsw. cbn [findm]. destruct (seqb k (cellkey n name)) eqn:Ek; [apply seqb_eq in Ek; subst k; discriminate Hsw|now apply HB2]. }
-    pose proof (SwR_set _ _ name b0 b n HS Eal H1) as HS0.
+    assert (HR0 : Rfg good2 (frames (with_switches (tick e budget) (aset name b (switches e)))) U ((cellkey n name, MCell b) :: B))
+      by (apply Rfg_add_swkey; [reflexivity|intros id; unfold cellkey, mname; discriminate|exact HR1]).
+    pose proof (Heap_setsw (tick e budget) _ name b0 b n HS Eal H1) as HS0.
     destruct (IH _ _ _ _ _ Hns Hev Hg2 U _ rest HR0 HS0 Hsafe) as (T & U' & B' & Hex & HR' & HS' & Hlen & Htxt).
-    exists T, U', B'. repeat split; [|exact HR'|exact HS'|exact Hlen|exact Htxt].
+    exists T, U', B'. repeat split; [|exact HR'|exact (proj1 HS')|exact (proj2 HS')|exact Hlen|exact Htxt].
     cbn [print_node app]. eapply (exec_trans _ []); [exact Hex0|exact Hex].
   - (* \newif *)
     rewrite (eval_newsw f e out ns budget Hs) in Hev. rewrite (gsafe_newsw f e out ns budget Hs) in Hgs.
     change (switches (tick e budget)) with (switches e) in *.
     pose proof (exec_newif good2 _ U B name (print ns ++ rest) HR1) as Hex0.
-    pose proof (HS name) as Hsw. unfold new_switch in *.
+    pose proof (proj1 HS name) as Hsw. unfold new_switch in *.
     destruct (alookup name (switches e)) as [b0|] eqn:Eal.
     + destruct Hsw as (n & H1 & _). rewrite H1 in Hex0.
       destruct (IH _ _ _ _ _ Hns Hev Hgs U B rest HR1 HS Hsafe) as (T & U' & B' & Hex & HR' & HS' & Hlen & Htxt).
-      exists ([prim_elem PNewif] ++ T), U', B'. repeat split; [|exact HR'|exact HS'|exact Hlen|].
+      exists ([prim_elem PNewif] ++ T), U', B'. repeat split; [|exact HR'|exact (proj1 HS')|exact (proj2 HS')|exact Hlen|].
       * cbn [print_node app]. eapply (exec_trans _ [prim_elem PNewif]); [exact Hex0|exact Hex].
       * rewrite Htxt. reflexivity.
     + rewrite Hsw in Hex0. cbv zeta in Hex0.
@@ -2592,11 +2974,43 @@ Proof.
           destruct (seqb k (setname name true)) eqn:E3; [apply seqb_eq in E3; subst k; discriminate Hsw'|].
           destruct (seqb k (ifname name)) eqn:E4; [apply seqb_eq in E4; subst k; discriminate Hsw'|].
           now apply HB2. }
-      pose proof (SwR_new _ B name HS Eal) as HS0. cbv zeta in HS0. fold key in HS0. fold B0 in HS0.
+      pose proof (Heap_newsw (tick e budget) B name HS Eal) as HS0. cbv zeta in HS0. fold key in HS0. fold B0 in HS0.
       destruct (IH _ _ _ _ _ Hns Hev Hgs U B0 rest HR0 HS0 Hsafe) as (T & U' & B' & Hex & HR' & HS' & Hlen & Htxt).
-      exists ([prim_elem PNewif] ++ T), U', B'. repeat split; [|exact HR'|exact HS'|exact Hlen|].
+      exists ([prim_elem PNewif] ++ T), U', B'. repeat split; [|exact HR'|exact (proj1 HS')|exact (proj2 HS')|exact Hlen|].
       * cbn [print_node app]. eapply (exec_trans _ [prim_elem PNewif]); [exact Hex0|exact Hex].
       * rewrite Htxt. reflexivity.
+  - (* \stepcounter *)
+    rewrite (eval_step f e out ns budget Hs) in Hev. rewrite (gsafe_step f e out ns budget Hs) in Hgs.
+    pose proof (exec_step good2 _ U B c (print ns ++ rest) HR1) as Hex0. rewrite (CtR_cnt (tick e budget) B c (proj2 HS)) in Hex0.
+    assert (HR0 : Rfg good2 (frames (with_counters (tick e budget) (aset c (cnt (tick e budget) c + 1)%Z (counters (tick e budget))))) U
+                    ((ckey (cname c), MCount (cnt (tick e budget) c + 1)) :: B))
+      by (apply Rfg_add_swkey; [reflexivity|intros id; unfold ckey, mname; discriminate|exact HR1]).
+    pose proof (Heap_setc (tick e budget) B c (cnt (tick e budget) c + 1)%Z HS) as HS0.
+    destruct (IH _ _ _ _ _ Hns Hev Hgs U _ rest HR0 HS0 Hsafe) as (T & U' & B' & Hex & HR' & HS' & Hlen & Htxt).
+    exists ([prim_elem PStepcounter] ++ T), U', B'. repeat split; [|exact HR'|exact (proj1 HS')|exact (proj2 HS')|exact Hlen|].
+    + cbn [print_node app]. eapply (exec_trans _ [prim_elem PStepcounter]); [exact Hex0|exact Hex].
+    + rewrite Htxt. reflexivity.
+  - (* \setcounter *)
+    rewrite (eval_setc f e out ns budget Hs) in Hev. rewrite (gsafe_setc f e out ns budget Hs) in Hgs.
+    pose proof (exec_setc good2 _ U B c z (print ns ++ rest) HR1) as Hex0.
+    assert (HR0 : Rfg good2 (frames (with_counters (tick e budget) (aset c z (counters (tick e budget))))) U ((ckey (cname c), MCount z) :: B))
+      by (apply Rfg_add_swkey; [reflexivity|intros id; unfold ckey, mname; discriminate|exact HR1]).
+    pose proof (Heap_setc (tick e budget) B c z HS) as HS0.
+    destruct (IH _ _ _ _ _ Hns Hev Hgs U _ rest HR0 HS0 Hsafe) as (T & U' & B' & Hex & HR' & HS' & Hlen & Htxt).
+    exists ([prim_elem PSetcounter] ++ T), U', B'. repeat split; [|exact HR'|exact (proj1 HS')|exact (proj2 HS')|exact Hlen|].
+    + cbn [print_node app]. repeat (rewrite <- app_assoc; cbn [app]). eapply (exec_trans _ [prim_elem PSetcounter]); [exact Hex0|exact Hex].
+    + rewrite Htxt. reflexivity.
+  - (* \addtocounter *)
+    rewrite (eval_addc f e out ns budget Hs) in Hev. rewrite (gsafe_addc f e out ns budget Hs) in Hgs.
+    pose proof (exec_addc good2 _ U B c z (print ns ++ rest) HR1) as Hex0. rewrite (CtR_cnt (tick e budget) B c (proj2 HS)) in Hex0.
+    assert (HR0 : Rfg good2 (frames (with_counters (tick e budget) (aset c (cnt (tick e budget) c + z)%Z (counters (tick e budget))))) U
+                    ((ckey (cname c), MCount (cnt (tick e budget) c + z)) :: B))
+      by (apply Rfg_add_swkey; [reflexivity|intros id; unfold ckey, mname; discriminate|exact HR1]).
+    pose proof (Heap_setc (tick e budget) B c (cnt (tick e budget) c + z)%Z HS) as HS0.
+    destruct (IH _ _ _ _ _ Hns Hev Hgs U _ rest HR0 HS0 Hsafe) as (T & U' & B' & Hex & HR' & HS' & Hlen & Htxt).
+    exists ([prim_elem PAddtocounter] ++ T), U', B'. repeat split; [|exact HR'|exact (proj1 HS')|exact (proj2 HS')|exact Hlen|].
+    + cbn [print_node app]. repeat (rewrite <- app_assoc; cbn [app]). eapply (exec_trans _ [prim_elem PAddtocounter]); [exact Hex0|exact Hex].
+    + rewrite Htxt. reflexivity.
 Qed.
 
 Theorem engine_simulates_F2 fuel p e out :
@@ -2609,7 +3023,7 @@ Theorem engine_simulates_F2 fuel p e out :
     (forall k, (forall id, k <> mname id) -> swkey k = false -> findm k (bottom st') = findm k base_frame).
 Proof.
   intros HF Hden Hsafe. unfold in_F2 in HF. unfold den in Hden. unfold gdef_safe in Hsafe.
-  destruct (sim2 fuel empty_env [] p e out HF Hden Hsafe [] base_frame [] (Rfg_init good2) SwR_init I) as (T & U' & B' & Hex & HR & HS & Hlen & Htxt).
+  destruct (sim2 fuel empty_env [] p e out HF Hden Hsafe [] base_frame [] (Rfg_init good2) Heap_init I) as (T & U' & B' & Hex & HR & HS & Hlen & Htxt).
   destruct U' as [|u U']; [|discriminate Hlen]. rewrite app_nil_r in Hex.
   destruct (exec_run _ _ _ Hex eq_refl) as (fuel' & Hrun).
   exists fuel', (St [] [] B'), T. split; [exact (Hrun [])|]. split; [cbn in Htxt; now rewrite Htxt|]. split; [reflexivity|].
